@@ -175,7 +175,7 @@ class Check(c11.Check):
     ]
 
     def cases(self, tier, rng):
-        for c in c11.gen_cases(tier, rng, n_quick=2200, n_thorough=30000):
+        for c in c11.gen_cases(tier, rng, n_quick=2800, n_thorough=30000):
             if c.data['via'] == 'parser':
                 c.data['via'] = 'str'
             yield c
